@@ -2042,6 +2042,12 @@ pub fn run_with_block(scn: &Scenario, cfg: &SimCfg, block_at: usize) -> SimOut {
         handles_dropped_pending: false,
         early_phase: false,
     };
+    // prologue bit 6 with ending 7: the earlier connection broke inside the PUBREC for an inbound
+    // QoS 2 PUBLISH with identifier 7, and this connection's CONNACK says Session Present (bit 0 is
+    // part of that ending): the exchange is still open, a PUBLISH with identifier 7 is a re-delivery
+    if scn.prologue & 64 != 0 && scn.prologue & 7 == 7 {
+        sim.awaiting_rel.insert(7);
+    }
     // prologue bit 7: the first (up to three) operations of the history are issued, and their
     // futures polled once, BEFORE connect() is called - the crate documentation's own pattern of
     // using the handle while another task is still connecting. run() finds them in the queue.
